@@ -376,6 +376,19 @@ func (g *Gen) MetaProgram() *Chunk {
 			o := operand()
 			e = Call(o, g.simpleVal(), g.simpleVal())
 		case 10:
+			if g.R.Intn(3) == 0 {
+				// strings carry a metatable too (getmetatable("")): tostring honours its __tostring while it is set
+				smt := g.fresh("smt")
+				b.Stmts = append(b.Stmts,
+					Local1(smt, CallN("getmetatable", Str(""))),
+					Assign1(Idx(N(smt), Str("__tostring")), g.handler("__tostring@string", 1, Str("Sstring"))),
+					CallSN("emit", Str("ts-string"), &EParen{X: CallN("pcall", N("tostring"), Str("abc"))}, CallN("pcall", N("tostring"), N(ks))),
+					CallSN("emit", Str("ts-string2"), CallN("tostring", Str("12")), CallN("tostring", Num(12))),
+					Assign1(Idx(N(smt), Str("__tostring")), &ENil{}),
+					CallSN("emit", Str("ts-string-off"), CallN("tostring", Str("abc"))))
+				g.cover("metaop:tostring-string-metatable")
+				continue
+			}
 			e = CallN("tostring", operand())
 		case 11:
 			e = CallN("getmetatable", operand())
